@@ -227,6 +227,86 @@ def run(chk):
     conditional_rules(chk, repo)
     hunt3_rules(chk, repo)
     hunt4_rules(chk, repo)
+    hunt5_rules(chk, repo)
+
+
+def hunt5_rules(chk, repo):
+    """Rules written after the fifth defect hunt (F287-F290)."""
+    from sa.consteval import Folder
+    from rules import C01
+    FR = "aiohttp/web_fileresponse.py"
+    folder = Folder(repo)
+    # ---- C15.range.int (F287): the numbers of a Range header are converted where a ValueError means `not satisfiable` -----------------------------------
+    K.int_sites(chk, "C15.range.int", repo, folder, [FR], {
+        (FR, "_range_pos", "digits or '0'"): "at most 20 characters (the test of the same conditional expression) that the range-set pattern admitted as digits",
+    }, "a position of a Range set is text of the peer (`bytes=<5000 digits>-,0-0` is 5 kB): the request is answered 500 with a traceback, and the verdict depends on the order of the members (`bytes=<big>-` alone is 416)",
+                gate=C01.int_cannot_raise, min_sites=1)
+    rp = repo.func_opt(FR, "_range_pos")
+    if rp is not None:
+        ints = [c for c in prog.calls_in(rp.node) if isinstance(c.func, ast.Name) and c.func.id == "int"]
+        bounded = [c for c in ints if any(isinstance(p_, ast.IfExp) and any(x is c for x in ast.walk(p_.body)) and "len(" in norm.raw(p_.test) and "<" in norm.raw(p_.test) for p_ in ast.walk(rp.node))]
+        if ints and len(bounded) == len(ints):
+            chk.ok("C15.range.int", ints[0], "_range_pos(): int() only sees a digit string whose length the same expression has bounded")
+        else:
+            chk.violation("C15.range.int", rp, "int(digits)", "int(digits) if len(digits) <= 20 else <beyond any file>", "the listed conversion of _range_pos() is no longer under its length test: an over-long position raises ValueError (4300-digit limit) and the request is answered 500")
+    # ---- C15.cond.status (F288): preconditions and Range apply to what would otherwise be a 2xx / 200 response ---------------------------------------------
+    mk = repo.func(FR, "FileResponse._make_response")
+    rets = [r for r in ast.walk(mk.node) if isinstance(r, ast.Return) and any(k in norm.raw(r) for k in ("NOT_MODIFIED", "PRE_CONDITION_FAILED"))]
+    defs = norm.fn_defs(mk.node)
+    def twoxx(lit):
+        if not lit.pos:
+            return False
+        t = lit.text
+        if "_status" in t and "200" in t and "300" in t:
+            return True
+        return t.isidentifier() and any(v is not None and "_status" in norm.raw(v) and "200" in norm.raw(v) for _d, v in defs.defs.get(t, []))
+    nret = 0
+    for r in rets:
+        nret += 1
+        if any(twoxx(l) for l in PC.units(PC.pc(r, raw=True))):
+            chk.ok("C15.cond.status", r, f"`{K.short(r, 60)}`: the precondition is evaluated only for a 2xx status")
+        else:
+            chk.violation("C15.cond.status", r, K.short(r, 70), "evaluate = 200 <= self._status < 300 ... and evaluate",
+                          "a precondition overrides the status the handler gave the FileResponse (RFC 9110 13.2.1: preconditions are ignored unless the response without them would be 2xx): `FileResponse('404.html', status=404)` is answered 304 to `If-None-Match: *` / a fresh If-Modified-Since - the browser keeps showing the deleted resource - and 412 to `If-Match`")
+    chk.expect_count("C15.cond.status", nret, 4, "precondition verdicts of FileResponse._make_response")
+    po = repo.func(FR, "FileResponse._prepare_open_file")
+    on = [a for a in ast.walk(po.node) if isinstance(a, ast.Assign) and norm.raw(a.targets[0]) == "process_range" and not (isinstance(a.value, ast.Constant) and a.value.value is False)]
+    nr = 0
+    for a in on:
+        nr += 1
+        u = list(PC.units(PC.pc(a, raw=True)))
+        if any((not l.pos and l.text in ("status != 200", "self._status != 200")) or (l.pos and l.text in ("status == 200", "self._status == 200", "process_range")) for l in u):
+            chk.ok("C15.cond.status", a, f"`{K.short(a, 60)}`: Range is honoured only for a 200 status")
+        else:
+            chk.violation("C15.cond.status", a, K.short(a, 70), "if status != 200: process_range = False",
+                          "Range is applied whatever the status of the response (RFC 9110 14.2: only to what would otherwise be 200): `FileResponse('404.html', status=404)` answers `Range: bytes=0-` with 206 and bytes of the error page")
+    chk.expect_count("C15.cond.status.range", nr, 3, "places that may switch range processing on (or keep it on)")
+    # ---- C15.coded.validator (F289): what is coded on the fly does not carry the file's ranges and strong validator --------------------------------------
+    fcls = repo.cls(FR, "FileResponse")
+    sets_ar = any("ACCEPT_RANGES" in norm.raw(a) for f in fcls.methods.values() for a in ast.walk(f.node) if isinstance(a, ast.Assign))
+    dsc = fcls.methods.get("_do_start_compression")
+    if not sets_ar:
+        chk.ok("C15.coded.validator", fcls.node, "FileResponse does not advertise byte ranges")
+    elif dsc is not None and M.contains(dsc.node, "self._headers.popall(hdrs.ACCEPT_RANGES, ...)") and any(isinstance(c, ast.keyword) and c.arg == "is_weak" and isinstance(c.value, ast.Constant) and c.value.value is True for c in ast.walk(dsc.node)):
+        chk.ok("C15.coded.validator", dsc, "FileResponse._do_start_compression(): a coding applied on the fly removes Accept-Ranges and weakens the ETag (it is not the stored representation)")
+    else:
+        chk.violation("C15.coded.validator", fcls.node, "Accept-Ranges: bytes / ETag of the file", "FileResponse._do_start_compression(): drop Accept-Ranges, send the ETag weak when coding != identity",
+                      "with enable_compression() the gzip-coded 200 carries the identity file's strong ETag and `Accept-Ranges: bytes`: a client that resumes with `Range: bytes=N-` and `If-Range: <that ETag>` gets 206 with identity[N:] and splices N gzip bytes with identity bytes - the result does not decode and no error is signalled")
+    # ---- C15.path.value (F290): a path the OS refuses as a value is a missing file -----------------------------------------------------------------------
+    pp = fcls.methods["prepare"]
+    nhs = 0
+    okh = 0
+    for t in [t for t in ast.walk(pp.node) if isinstance(t, ast.Try)]:
+        for h in t.handlers:
+            ty = PC.handler_types(h)
+            if "OSError" in ty and "PermissionError" not in ty:
+                nhs += 1
+                okh += "ValueError" in ty
+    if nhs and okh == nhs:
+        chk.ok("C15.path.value", pp, "FileResponse.prepare(): a ValueError of the path (embedded null byte) is answered like a missing file, 404")
+    else:
+        chk.violation("C15.path.value", pp, "except OSError:", "except (OSError, ValueError):",
+                      "os.stat() refuses a path with an embedded null byte with ValueError, not OSError: `web.FileResponse(DIR / request.match_info['name'])` answers `GET /dl/a%00.txt` with 500 and a traceback, while a missing file, a 300-character name and the static route (which catches it itself) give 404")
 
 
 def hunt4_rules(chk, repo):
